@@ -154,7 +154,7 @@ def eff(pmce):
             "c_nct": bool(pmce.client_no_context_takeover)}
 
 
-def lattice(col, shard, nshards, stride, offset):
+def lattice(col, shard, nshards, stride, offset, only=None):
     from autobahn.websocket.compress import (PerMessageDeflate, PerMessageDeflateOffer, PerMessageDeflateOfferAccept, PerMessageDeflateResponse,
                                              PerMessageDeflateResponseAccept)
     offers = list(itertools.product([True, False], [True, False], [True, False], WB))
@@ -166,7 +166,9 @@ def lattice(col, shard, nshards, stride, offset):
     far = blk + blk        # a back-reference 17000 bytes away: only decodable when the inflater window is as large as the deflater's
     n_ref = 0
     for oi, o in enumerate(offers):
-        if oi % nshards != shard:
+        if oi % nshards != shard and only is None:
+            continue
+        if only is not None and list(o) != list(only[0]):
             continue
         try:
             offer = PerMessageDeflateOffer(*o)
@@ -186,7 +188,9 @@ def lattice(col, shard, nshards, stride, offset):
         if j1 != j2:
             raise Violation("C12|lattice|offer-roundtrip-differs", "%r -> %r" % (offer.__json__(), offer2.__json__()), {"check": "lattice", "offer": o})
         for ai, a in enumerate(accepts):
-            if ai % stride != offset:
+            if ai % stride != offset and only is None:
+                continue
+            if only is not None and list(a) != list(only[1]):
                 continue
             case = {"check": "lattice", "offer": o, "accept": a}
             try:
@@ -542,7 +546,9 @@ def replay(col, case):
     c = case.get("case", case)
     kind = c.get("check")
     if kind == "lattice":
-        pass
+        if "accept" in c:
+            lattice(col, 0, 1, 1, 0, only=(c["offer"], c["accept"]))
+            return
     elif kind == "framebits":
         framebits(col)
         return
